@@ -15,8 +15,16 @@ ENV = dict(os.environ, CARGO_NET_OFFLINE="true")
 
 
 def sh(cmd, cwd=None, timeout=3600):
-    p = subprocess.run(cmd, shell=True, cwd=cwd, stdout=subprocess.PIPE, stderr=subprocess.STDOUT, text=True, env=ENV, timeout=timeout)
-    return p.returncode, p.stdout
+    # own process group, so that a hanging test binary (a mutant that loops) is killed together with cargo
+    p = subprocess.Popen(cmd, shell=True, cwd=cwd, stdout=subprocess.PIPE, stderr=subprocess.STDOUT, text=True, env=ENV, start_new_session=True)
+    try:
+        out, _ = p.communicate(timeout=timeout)
+        return p.returncode, out
+    except subprocess.TimeoutExpired:
+        import signal
+        os.killpg(p.pid, signal.SIGKILL)
+        p.communicate()
+        return 124, "TIMEOUT"
 
 
 OPS = [
@@ -101,7 +109,9 @@ def crate_of(rel):
 def unit_tests(crate):
     extra = " --lib" if crate == "mls-rs" else ""
     feat = " --features x509" if crate == "mls-rs-crypto-rustcrypto" else ""
-    rc, out = sh(f"cd {REPO} && cargo test -p {crate}{extra}{feat} --offline 2>&1 | grep -E 'test result|error(\\[|: could not)' | head -20")
+    rc, out = sh(f"cd {REPO} && cargo test -p {crate}{extra}{feat} --offline 2>&1 | grep -E 'test result|error(\\[|: could not)' | head -20", timeout=900)
+    if out == "TIMEOUT":
+        return "killed-by-tests", ["timeout: the unit tests hang"]
     lines = out.strip().splitlines()
     if any("could not compile" in l or "error[" in l for l in lines) or not any("test result" in l for l in lines):
         return "compile-error", lines
@@ -128,8 +138,8 @@ def main():
             cands += [(c, props) for c in candidates(path, rel)]
     rng.shuffle(cands)
     skip = set()
-    if a.skip and os.path.exists(a.skip):
-        for l in open(a.skip):
+    for sf in [x for x in a.skip.split(",") if x and os.path.exists(x)]:
+        for l in open(sf):
             r = json.loads(l)
             skip.add((r["file"], r["line"]))
     print(f"{len(cands)} candidate mutants in {len(pf)} files", flush=True)
